@@ -106,6 +106,7 @@ func (e *e11) aliasesOf(fn *ssa.Function, roots ...ssa.Value) map[ssa.Value]bool
 		A[r] = true
 	}
 	cells := map[*ssa.Alloc]bool{}
+	parked := map[[2]interface{}]bool{}
 	for changed := true; changed; {
 		changed = false
 		add := func(v ssa.Value) {
@@ -162,10 +163,21 @@ func (e *e11) aliasesOf(fn *ssa.Function, roots ...ssa.Value) map[ssa.Value]bool
 				// the resource from now on (returning or publishing the object hands it on)
 				if obj := localObjectOf(x.Addr); obj != nil && A[x.Val] {
 					add(obj)
+					if fa, ok := x.Addr.(*ssa.FieldAddr); ok {
+						k := [2]interface{}{fa.X, fa.Field}
+						if !parked[k] {
+							parked[k] = true
+							changed = true
+						}
+					}
 				}
 			case *ssa.UnOp:
 				if x.Op == token.MUL {
 					if al, ok := x.X.(*ssa.Alloc); ok && cells[al] {
+						add(x)
+					}
+					// read back out of the fresh object it was parked in
+					if fa, ok := x.X.(*ssa.FieldAddr); ok && parked[[2]interface{}{fa.X, fa.Field}] {
 						add(x)
 					}
 				}
